@@ -1144,8 +1144,10 @@ def _in_distance(val1, val2) -> float:
     if not isinstance(val2, Iterable):
         return inf
 
-    # Use the shortest distance to any element of the iterable.
-    return min([_eq(val1, v) for v in val2] + [inf])
+    # Use the shortest distance to any element of the iterable.  No element is equal to
+    # val1 (it is not contained), so there is no need to compare them again: a hash-based
+    # container never called the ``__eq__`` of val1 in the first place.
+    return min([_eq_distance(val1, v) for v in val2] + [inf])
 
 
 def _nin(val1, val2) -> float:
